@@ -120,12 +120,12 @@ def run(ch, render=False):
     big = ch.chance(1, BIG_DEN, "big")
     src = ch.weighted(SOURCES, "source")
     consumer = ch.weighted([(3, "ccsds_generator"), (1, "packet_generator")], "consumer")
-    k = ch.weighted([(8, 0), (1, 1), (1, 4), (1, 6), (1, 7), (1, 11)], "k")
+    k = ch.weighted([(8, 0), (1, 1), (1, 4), (1, 6), (1, 7), (1, 11), (1, 5), (1, 2), (1, 12), (1, 13), (1, 64), (1, 300)], "k")
     if big:
         rs = ch.pick((None, 65536, 1 << 20), "read_size")
         knob = None
     else:
-        rs = ch.pick((None, 1, 2, 3, 5, 6, 7, 8, 13, 4096, 65536, "gt"), "read_size")
+        rs = ch.pick((None, 1, 2, 3, 5, 6, 7, 8, 13, 4096, 65536, "gt", 9, 10, 11, 12, 16, 64, 100, 1000, 4095, 4097), "read_size")
         knob = ch.pick((7, None, 64, 1000), "trim")   # small threshold most of the time: cheap way into the branch
     progress = ch.chance(1, 6, "progress")
     clock_mode = ch.pick(("ok", "frozen", "back", "forward"), "clock") if progress else "ok"
